@@ -24,6 +24,29 @@ import sys
 
 from .common import coq_Z, coq_N, coq_nat, coq_bool, coq_list, coq_opt, coq_string, shards, parse_eval_lists, REPO
 
+# string literals are the expensive part of elaborating a cases file: every distinct string of a
+# file is defined once (Definition sN := "...") and referred to by name
+class StrTab:
+    def __init__(self):
+        self.names = {}
+
+    def name(self, s):
+        if s not in self.names:
+            self.names[s] = "s%d" % len(self.names)
+        return self.names[s]
+
+    def defs(self):
+        return "".join("Definition %s : string := %s.\n" % (n, coq_string(s)) for s, n in self.names.items())
+
+
+_STRTAB = None
+
+
+def cs(s):
+    """Coq term for the string s (interned when a table is active)."""
+    return _STRTAB.name(s) if _STRTAB is not None else coq_string(s)
+
+
 # ---------------------------------------------------------------------------
 # portable values ("pv"): JSON-able, canonical
 #   scalars: ["bool",b] ["int",z] ["float",n64] ["str",s] ["bytes",[..]] ["struct",name,[n64..]] ["other"]
@@ -57,7 +80,8 @@ def scalar_to_py(s):
     if k == "bytes":
         return bytes(s[1])
     if k == "struct":
-        return struct_cls(s[1])(*[x / 64.0 for x in s[2]])
+        f = list(s[2]) + [0] * (STRUCT_ARITY[s[1]] - len(s[2]))   # the grid's sample struct has two fields
+        return struct_cls(s[1])(*[x / 64.0 for x in f])
     return None
 
 
@@ -78,11 +102,11 @@ def scalar_to_coq(s):
     if k == "float":
         return "(SFloat %s)" % coq_Z(s[1])
     if k == "str":
-        return "(SStr %s)" % coq_string(s[1])
+        return "(SStr %s)" % cs(s[1])
     if k == "bytes":
         return "(SBytes %s)" % coq_list([coq_N(x) for x in s[1]])
     if k == "struct":
-        return "(SStruct %s %s)" % (coq_string(s[1]), coq_list([coq_Z(x) for x in s[2]]))
+        return "(SStruct %s %s)" % (cs(s[1]), coq_list([coq_Z(x) for x in s[2]]))
     return "SOther"
 
 
@@ -416,7 +440,7 @@ def gobs_to_coq(g):
     if g[0] == "created":
         return "GCreated"
     if g[0] == "bound":
-        return "(GBound %s)" % coq_string(g[1])
+        return "(GBound %s)" % cs(g[1])
     return '(GBound "setup raised")'
 
 
@@ -454,3 +478,291 @@ def doc_topic(d, h):
     if d[0] in ("list", "tuple"):
         return doc_array(base_of_scalar(d[1][0])) if d[1] else None
     return SCALAR_TS.get(base_of_scalar(d))
+
+
+# ---------------------------------------------------------------------------
+# histories
+#   case = {"classes": [[decl..]..], "split": [n..], "insts": [class index..],
+#           "ops": [["setup",i,prefix,cname] | ["pyw",i,attr,pv] | ["pyr",i,attr]
+#                   | ["ntw",key,ts,pv] | ["ntr",key]]}
+# ---------------------------------------------------------------------------
+KINDS = [(b, False) for b in ["bool", "int", "float", "str", "bytes", "T2", "T3"]] + \
+        [(b, True) for b in ["bool", "int", "float", "str", "T2", "T3"]]
+STR_POOL = ["", "a", "ab", "x y", "a/b", "get_", "Z9", "q\"uote", "0"]
+
+
+def gen_scalar(r, base):
+    if base == "bool":
+        return ["bool", r.random() < 0.5]
+    if base == "int":
+        return ["int", r.choice([0, 1, -1, 2, 7, 255, -(2 ** 40), 2 ** 53 + 1, r.randrange(-1000, 1000)])]
+    if base == "float":
+        return ["float", r.choice([0, 64, -64, 96, 1, -3, 2 ** 30, r.randrange(-6400, 6400)])]
+    if base == "str":
+        return ["str", r.choice(STR_POOL)]
+    if base == "bytes":
+        return ["bytes", [r.randrange(256) for _ in range(r.choice([0, 1, 2, 4]))]]
+    n = 2 if base == "T2" else 3
+    return ["struct", STRUCT_NAME[base], [r.choice([0, 64, -32, 640, r.randrange(-999, 999)]) for _ in range(n)]]
+
+
+def gen_value(r, kind, allow_empty=True, pyform=False, as_default=False):
+    base, arr = kind
+    if not arr:
+        return gen_scalar(r, base)
+    # pyntcore's StructArrayEntry.get() hands back the entry's DEFAULT when the stored array is
+    # empty (ntcore behaviour, see notes_c09.md): empty struct arrays are only used as defaults
+    if base in ("T2", "T3") and not as_default:
+        allow_empty = False
+    n = r.choice([0, 1, 1, 2, 3] if allow_empty else [1, 1, 2, 3])
+    return ["tuple" if (pyform and r.random() < 0.4) else "list", [gen_scalar(r, base) for _ in range(n)]]
+
+
+def gen_hint(r, kind, need):
+    base, arr = kind
+    if not arr:
+        if need or r.random() < 0.25:
+            return ["base", base]
+        return None
+    if not need and r.random() < 0.45:
+        return None
+    return r.choice([["gen", "list", [base]], ["gen", "seq", [base]], ["gen", "tuple", [base, "..."]],
+                     ["gen", "tuple", [base, base]], ["gen", "tuple", [base]], ["gen", "tuple", [base, base, base]]])
+
+
+def gen_decl(r, attr, kind=None):
+    kind = kind or r.choice(KINDS)
+    default = gen_value(r, kind, pyform=True, as_default=True)
+    if kind[1] and kind[0] in ("T2", "T3") and default[1] and r.random() < 0.5:
+        default = [default[0], []]               # (an empty struct-array default reads back as itself)
+    empty_seq = kind[1] and not default[1]
+    hint = gen_hint(r, kind, empty_seq)
+    return {"attr": attr, "kind": list(kind), "default": default, "hint": hint,
+            "form": r.randrange(4), "flavor": r.randrange(2),
+            "subtable": r.choice([None, None, None, "cfg", "s/t", "", "x"]),
+            "wd": r.choice([True, True, False, None])}
+
+
+ATTR_POOL = ["x", "y", "gain", "kP", "speed", "limits", "name", "x_", "xy", "flag"]
+NAME_POOL = ["a", "ab", "a_b", "b", "Mode A", "robot", "components", "x"]
+
+
+def gen_case(r, tag):
+    """one history; `tag` makes every topic name of the case unique in the NT instance."""
+    ncls = r.choice([1, 1, 2])
+    classes, split = [], []
+    for c in range(ncls):
+        n = r.choice([1, 2, 3, 4, 5, 6])
+        attrs = r.sample(ATTR_POOL, n)
+        ds = [gen_decl(r, "%s_%s" % (a, tag)) for a in attrs]
+        if r.random() < 0.3:
+            ds.append(gen_decl(r, "_hidden_%s" % tag))
+        ds.sort(key=lambda d: d["attr"])            # dir(cls) order
+        classes.append(ds)
+        split.append(r.randrange(len(ds)) if r.random() < 0.3 else 0)
+    ninst = r.choice([1, 2, 2, 3])
+    insts = [r.randrange(ncls) for _ in range(ninst)]
+    if ninst >= 2 and r.random() < 0.6:
+        insts[1] = insts[0]                         # two instances of one class
+
+    def gen_owner():
+        k = r.random()
+        nm = r.choice(NAME_POOL)
+        if k < 0.4:
+            return ("components", "%s%s" % (nm, tag))
+        if k < 0.65:
+            return ("autonomous", "%s%s" % (nm, tag))
+        if k < 0.85:
+            return (None, "robot")
+        if k < 0.93:
+            return (None, "%s%s" % (nm, tag))
+        return ("pfx%s" % tag, nm)
+
+    owner_cls = {}
+
+    def fresh_owner(i):
+        # a topic has one type: an owner path is only ever used by instances of one class
+        # (a type conflict between two classes is ntcore's business, not the model's)
+        while True:
+            o = gen_owner()
+            if owner_cls.setdefault(o, insts[i]) == insts[i]:
+                return o
+
+    owners = [fresh_owner(i) for i in range(ninst)]
+    if ninst >= 2 and insts[0] == insts[1] and r.random() < 0.2:
+        owners[1] = owners[0]                       # same name: the instances share (documented)
+    ops = []
+    bound = {}                                      # i -> (prefix, cname)
+    known_keys = []                                 # (key, ts, kind)
+
+    def keys_of(i, owner):
+        out = []
+        for d in classes[insts[i]]:
+            if d["attr"].startswith("_"):
+                continue
+            ts = (ARRAY_TS if d["kind"][1] else SCALAR_TS)[d["kind"][0]]
+            out.append((doc_key(owner[0], owner[1], d["subtable"], d["attr"]), ts, tuple(d["kind"])))
+        return out
+
+    # before any setup: reads of unbound instances, pre-published topics
+    for i in range(ninst):
+        if r.random() < 0.2:
+            d = r.choice(classes[insts[i]])
+            ops.append(["pyr", i, d["attr"]])
+        for key, ts, kind in keys_of(i, owners[i]):
+            if r.random() < 0.35:
+                ops.append(["ntw", key, ts, gen_value(r, kind)])
+                known_keys.append((key, ts, kind))
+    pending = list(range(ninst))
+    r.shuffle(pending)
+    nops = r.randrange(6, 28)
+    while nops > 0 or pending:
+        nops -= 1
+        if pending and (not bound or r.random() < 0.35):
+            i = pending.pop()
+            ops.append(["setup", i, owners[i][0], owners[i][1]])
+            bound[i] = owners[i]
+            known_keys += keys_of(i, owners[i])
+            continue
+        if not bound:
+            continue
+        k = r.random()
+        i = r.choice(list(bound) if r.random() < 0.95 else list(range(ninst)))
+        d = r.choice(classes[insts[i]])
+        if k < 0.33:
+            ops.append(["pyw", i, d["attr"], gen_value(r, tuple(d["kind"]), pyform=True)])
+        elif k < 0.63:
+            ops.append(["pyr", i, d["attr"]])
+        elif k < 0.78 and known_keys:
+            key, ts, kind = r.choice(known_keys)
+            ops.append(["ntw", key, ts, gen_value(r, kind)])
+        elif k < 0.95 and known_keys:
+            key, ts, kind = r.choice(known_keys)
+            if r.random() < 0.1:                    # a near miss: nothing may live there
+                key = r.choice([key + "/" + (d["subtable"] or "cfg"), key.rsplit("/", 1)[0], key + "_"])
+            ops.append(["ntr", key])
+        elif i in bound:
+            owners[i] = fresh_owner(i)              # re-bind under another name
+            ops.append(["setup", i, owners[i][0], owners[i][1]])
+            bound[i] = owners[i]
+            known_keys += keys_of(i, owners[i])
+    # closing reads: every attribute of every instance, every known key
+    for i in range(ninst):
+        for d in classes[insts[i]]:
+            if r.random() < 0.5:
+                ops.append(["pyr", i, d["attr"]])
+    for key, ts, kind in known_keys[:8]:
+        if r.random() < 0.5:
+            ops.append(["ntr", key])
+    return {"classes": classes, "split": split, "insts": insts, "ops": ops}
+
+
+def exec_case(mt, case):
+    """run the history against the implementation; returns one observation per op."""
+    keep = []                                       # keeps every entry / publisher alive
+    writer = NtWriter()
+    keep.append(writer)
+    try:
+        clss = [make_class(mt, ds, "Cls%d" % k, case["split"][k]) for k, ds in enumerate(case["classes"])]
+    except Exception as e:
+        return [["classraise", type(e).__name__]] * len(case["ops"])
+    objs = [clss[c]() for c in case["insts"]]
+    kinds = [{d["attr"]: d["kind"] for d in case["classes"][c]} for c in case["insts"]]
+    obs = []
+    for op in case["ops"]:
+        try:
+            if op[0] == "setup":
+                keep.append(dict(objs[op[1]].__dict__))          # old entries stay published
+                try:
+                    if op[2] == "components" and len(obs) % 2:
+                        mt.setup_tunables(objs[op[1]], op[3])    # default prefix argument
+                    else:
+                        mt.setup_tunables(objs[op[1]], op[3], op[2])
+                    obs.append(["setup", True])
+                except Exception as e:
+                    obs.append(["setup", False, type(e).__name__])
+            elif op[0] == "pyw":
+                try:
+                    setattr(objs[op[1]], op[2], to_py(op[3]))
+                    obs.append(["wrote"])
+                except (AttributeError, KeyError) as e:
+                    obs.append(["err", type(e).__name__])
+            elif op[0] == "pyr":
+                try:
+                    v = getattr(objs[op[1]], op[2])
+                except (AttributeError, KeyError) as e:
+                    obs.append(["err", type(e).__name__])
+                    continue
+                k = kinds[op[1]].get(op[2])
+                try:
+                    obs.append(["val", from_py(v, k[0], k[1])])
+                except ValueError:
+                    obs.append(["bad", repr(v)])
+            elif op[0] == "ntw":
+                writer.write(op[1], op[2], op[3])
+                obs.append(["wrote"])
+            elif op[0] == "ntr":
+                obs.append(["nt", nt_read(op[1])])
+        except Exception as e:                      # anything unexpected is an observation too
+            obs.append(["bad", "%s: %s" % (type(e).__name__, str(e)[:80])])
+    keep.append(objs)
+    return obs
+
+
+def obs_to_coq(o):
+    if o[0] == "setup":
+        return "(OSetup %s)" % coq_bool(o[1])
+    if o[0] == "wrote":
+        return "OWrote"
+    if o[0] == "val":
+        return "(OVal %s)" % to_coq(o[1])
+    if o[0] == "err":
+        return "OErr"
+    if o[0] == "nt":
+        if o[1] is None:
+            return "(ONt None)"
+        ts = o[1][0] if all(32 <= ord(c) < 127 for c in o[1][0]) else "?"
+        return "(ONt (Some (%s, %s)))" % (cs(ts), to_coq(o[1][1]))
+    return "OBad"
+
+
+def decl_to_coq(d):
+    return "(mkdecl %s %s %s %s %s)" % (
+        cs(d["attr"]), to_coq(d["default"]), coq_opt(d.get("hint"), hint_to_coq),
+        coq_opt(d.get("subtable"), coq_string), coq_bool(d.get("wd") is not False))
+
+
+def case_to_coq(case, obs):
+    lets = "".join("let c%d := %s in " % (k, coq_list([decl_to_coq(d) for d in ds]))
+                   for k, ds in enumerate(case["classes"]))
+    ops = []
+    for op in case["ops"]:
+        if op[0] == "setup":
+            ops.append("Setup %s c%d %s %s" % (coq_nat(op[1]), case["insts"][op[1]],
+                                              coq_opt(op[2], coq_string), cs(op[3])))
+        elif op[0] == "pyw":
+            ops.append("PyWrite %s %s %s" % (coq_nat(op[1]), cs(op[2]), to_coq(op[3])))
+        elif op[0] == "pyr":
+            ops.append("PyRead %s %s" % (coq_nat(op[1]), cs(op[2])))
+        elif op[0] == "ntw":
+            ops.append("NtWrite %s %s %s" % (cs(op[1]), NTYPE_COQ[op[2]], to_coq(op[3])))
+        else:
+            ops.append("NtRead %s" % cs(op[1]))
+    return "(%s(%s, %s))" % (lets, coq_list(ops), coq_list([obs_to_coq(o) for o in obs]))
+
+
+CASES_HEADER = ("From Coq Require Import String List Bool ZArith NArith.\n"
+                "From RV Require Import Tunable.Model Tunable.Compare.\n"
+                "Import ListNotations.\nOpen Scope string_scope.\n")
+
+
+def cases_file(pairs):
+    global _STRTAB
+    _STRTAB = StrTab()
+    try:
+        body = ";\n ".join(case_to_coq(c, o) for c, o in pairs)
+        defs = _STRTAB.defs()
+    finally:
+        _STRTAB = None
+    return (CASES_HEADER + defs + "Definition cases : list (list op * list obs) :=\n [%s].\n"
+            "Eval vm_compute in (bad_from hist_ok 0 cases).\n" % body)
